@@ -14,6 +14,7 @@ RULE = (
 )
 ASSUMPTIONS = [
     "displacement = target - (run address + 2) on run addresses (after @=), valid in -128..127",
+    "numeric targets also use far same-bank displacements around +-0x7F80/0x8000/0xFF80/0x10000 (must be rejected, never folded to 8/15/16 bits)",
     "unjudged: branch and target in different banks (incl. primary vs mirror), target or instruction outside the bank window",
     "branch opcodes from the ISA matrix; mnemonics absent from the live opcode table are skipped",
 ]
@@ -39,10 +40,15 @@ def branch_mnemonics() -> list[str]:
     return [m for m in sorted(isa.BRANCHES) if m in snes_opcode_table]
 
 
-def displacements(tier: str, m: str) -> list[int]:
+FAR = sorted({s * (base + k) for base in (0x7F80, 0x8000, 0xFF80, 0x10000) for k in (-0x82, -0x81, -0x80, -3, -2, -1, 0, 1, 0x7D, 0x7E, 0x7F) for s in (1, -1)})
+
+
+def displacements(tier: str, m: str, form: str = "") -> list[int]:
+    # far displacements whose low 15/16 bits look like a short one: same bank, opposite ends of the window
+    far = FAR if form == "numeric" else []
     if tier == "thorough" or m == "bra":
-        return list(range(-300, 301))
-    return sorted(set(list(range(-131, -124)) + list(range(-4, 5)) + list(range(124, 132)) + [-300, -256, -255, 255, 256, 300]))
+        return list(range(-300, 301)) + far
+    return sorted(set(list(range(-131, -124)) + list(range(-4, 5)) + list(range(124, 132)) + [-300, -256, -255, 255, 256, 300])) + far
 
 
 def plan(tier: str, seed: int) -> list[dict]:
@@ -171,7 +177,7 @@ def run_shard(shard: dict) -> Res:
     rom, m, form = shard["rom"], shard["m"], shard["form"]
     for place in placements(rom):
         for reloc in RELOCS:
-            for d in displacements(shard["tier"], m):
+            for d in displacements(shard["tier"], m, form):
                 judge(res, rom, m, d, place, form, reloc)
     b = build(rom, m, -5, placements(rom)[2], form, "none") or build(rom, m, 5, placements(rom)[2], form, "none")
     res.sample({"rom": rom, "src": b[0], "run": hex(b[1]), "target": hex(b[2])})
